@@ -450,6 +450,310 @@ theorem shape_onCCS (ne : CodesNe k) {h : HS P} (hs : Shape k h) : Shape k (HS.o
   · exact hs
   · exact shape_fail h _
 
+theorem shape_onMsg (ft : FlagsTrue f) (ne : CodesNe k) {h : HS P} (hs : Shape k h) {m : Msg} (hw : WellFramed m) :
+    Shape k (HS.onMsg k f W h m) := by
+  unfold HS.onMsg
+  simp only []
+  split
+  · -- cSH
+    rename_i hctl
+    simp only [Shape, hctl] at hs
+    obtain ⟨hr, hc, ch, hl, hch⟩ := hs
+    split
+    · rename_i hcond
+      have hty : mtype m = k.tSH := hcond.1
+      have hic : h.role.isClient = true := by rw [hr]; rfl
+      -- the state after `handshake()` created the hash and added both hellos
+      have hmid : ∀ (c : Ctl) (ms : Option P.Secret),
+          Mid k ({ role := h.role, ctl := c, log := h.log ++ [.msg false m], transcript := [ch, m], ms := ms } : HS P) false := by
+        intro c ms
+        refine ⟨?_, ?_, ?_⟩
+        · have := canonL_snoc hc (.msg m) false (by rw [cw_SH ne _ _ hty]; rfl)
+          simpa [tag, hic] using this
+        · have p0 : Pre k false h.log := by
+            rw [hl]; refine ⟨by simp [nFin, hch, ne.ne_CH_Fin], by simp [noCCS], by simp [hasSHD, hch, ne.ne_CH_SHD]⟩
+          have := pre_snoc p0 false m (by rw [hty]; exact ne.ne_SH_Fin)
+          simpa [hty, ne.ne_SH_SHD] using this
+        · simp [hl, msgsOf]
+      simp only [HS.take, ft.cHelloAdded, ft.cServerHelloAdded, if_true, hl, List.singleton_append, if_false]
+      split
+      · simp only [Shape]
+        exact ⟨hr, by simpa [hl] using hmid _ _, _, rfl⟩
+      · simp only [Shape]
+        exact ⟨hr, by simpa [hl] using hmid _ _⟩
+    · exact shape_fail h _
+  · -- cCert
+    rename_i hctl
+    simp only [Shape, hctl] at hs
+    obtain ⟨hr, hm⟩ := hs
+    have hic : h.role.isClient = true := by rw [hr]; rfl
+    split
+    · rename_i hcond
+      have hty : mtype m = k.tCert := hcond.1
+      simp only [ft.cReadsHashed, Shape]
+      have := Mid.take hm m (by rw [hty]; exact ne.ne_Cert_Fin) (by rw [cw_Cert ne _ _ hty, hic]; rfl)
+      refine ⟨by simp [HS.take, hr], ?_⟩
+      simpa [hty, ne.ne_Cert_SHD] using Mid.ctl this _
+    · exact shape_fail h _
+  · -- cSKX
+    rename_i hctl
+    simp only [Shape, hctl] at hs
+    obtain ⟨hr, hm⟩ := hs
+    have hic : h.role.isClient = true := by rw [hr]; rfl
+    split
+    · exact shape_fail h _
+    · split
+      · rename_i hty
+        simp only [ft.cReadsHashed, Shape]
+        have := Mid.take hm m (by rw [hty]; exact ne.ne_SKX_Fin) (by rw [cw_SKX ne _ _ hty, hic]; rfl)
+        refine ⟨by simp [HS.take, hr], ?_⟩
+        simpa [hty, ne.ne_SKX_SHD] using Mid.ctl this _
+      · split
+        · rename_i hty
+          simp only [ft.cReadsHashed, Shape]
+          have := Mid.take hm m (by rw [hty]; exact ne.ne_CR_Fin) (by rw [cw_CR ne _ _ hty, hic]; rfl)
+          refine ⟨by simp [HS.take, hr], ?_⟩
+          simpa [hty, ne.ne_CR_SHD] using Mid.ctl this _
+        · split
+          · rename_i hty
+            simp only [ft.cReadsHashed]
+            have := Mid.take hm m (by rw [hty]; exact ne.ne_SHD_Fin) (by rw [cw_SHD ne _ _ hty, hic]; rfl)
+            exact clientFlight_shape W ft ne (by simpa [hty] using this) (by simp [HS.take, hr]) _
+          · exact shape_fail h _
+  · -- cCR
+    rename_i hctl
+    simp only [Shape, hctl] at hs
+    obtain ⟨hr, hm⟩ := hs
+    have hic : h.role.isClient = true := by rw [hr]; rfl
+    split
+    · exact shape_fail h _
+    · split
+      · rename_i hty
+        simp only [ft.cReadsHashed, Shape]
+        have := Mid.take hm m (by rw [hty]; exact ne.ne_CR_Fin) (by rw [cw_CR ne _ _ hty, hic]; rfl)
+        refine ⟨by simp [HS.take, hr], ?_⟩
+        simpa [hty, ne.ne_CR_SHD] using Mid.ctl this _
+      · split
+        · rename_i hty
+          simp only [ft.cReadsHashed]
+          have := Mid.take hm m (by rw [hty]; exact ne.ne_SHD_Fin) (by rw [cw_SHD ne _ _ hty, hic]; rfl)
+          exact clientFlight_shape W ft ne (by simpa [hty] using this) (by simp [HS.take, hr]) _
+        · exact shape_fail h _
+  · -- cSHD
+    rename_i hctl
+    simp only [Shape, hctl] at hs
+    obtain ⟨hr, hm⟩ := hs
+    have hic : h.role.isClient = true := by rw [hr]; rfl
+    split
+    · rename_i hcond
+      have hty : mtype m = k.tSHD := hcond.1
+      simp only [ft.cReadsHashed]
+      have := Mid.take hm m (by rw [hty]; exact ne.ne_SHD_Fin) (by rw [cw_SHD ne _ _ hty, hic]; rfl)
+      exact clientFlight_shape W ft ne (by simpa [hty] using this) (by simp [HS.take, hr]) _
+    · exact shape_fail h _
+  · -- cFin
+    rename_i resumed hctl
+    split
+    · exact shape_fail h _
+    · rename_i ms hms
+      split
+      · rename_i hty
+        simp only [ft.cFinReadNil, ft.cFinAddedAfter, ft.cWritesHashed]
+        split
+        · exact shape_fail h _
+        · rename_i h1 hrecv
+          simp only [Shape, hctl] at hs
+          cases resumed with
+          | false =>
+            obtain ⟨hr, A, s, hA, ht⟩ := hs
+            have hss : ms = s := by have := ht.ms; rw [hms] at this; exact Option.some.inj this
+            subst hss
+            have hic : h.role.isClient = true := by rw [hr]; rfl
+            simp only [Bool.false_eq_true, if_false, Shape]
+            exact done_own_first ft ne hw hty (by rw [hic]; exact ht) (by rw [hA, hic]; rfl) hrecv _
+          | true =>
+            obtain ⟨hr, A, s, hA, ht⟩ := hs
+            have hss : ms = s := by have := ht.ms; rw [hms] at this; exact Option.some.inj this
+            subst hss
+            have hic : h.role.isClient = true := by rw [hr]; rfl
+            simp only [if_true, Shape]
+            exact done_peer_first ft ne hw hty ht (by rw [hA, hic]; rfl) hrecv _
+      · exact shape_fail h _
+  · -- sCH
+    rename_i hctl
+    simp only [Shape, hctl] at hs
+    obtain ⟨hr, hl⟩ := hs
+    have hic : h.role.isClient = false := by rw [hr]; rfl
+    split
+    · rename_i hcond
+      have hty : mtype m = k.tCH := hcond.1
+      have hmid : Mid k ({ role := h.role, ctl := h.ctl, log := [.msg false m], transcript := [m], ms := h.ms } : HS P) false := by
+        refine ⟨?_, ?_, ?_⟩
+        · have := canonL_snoc (canonL_nil k false) (.msg m) false (by rw [cw_CH ne _ _ hty]; rfl)
+          simpa [tag, hic] using this
+        · exact ⟨by simp [nFin, hty, ne.ne_CH_Fin], by simp [noCCS], by simp [hasSHD, hty, ne.ne_CH_SHD]⟩
+        · simp [msgsOf]
+      simp only [HS.take, ft.sHelloAdded, if_true, hl, List.nil_append, if_false, ft.sWritesHashed]
+      split
+      · -- resumed: ServerHello, ChangeCipherSpec, Finished
+        have m1 : Mid k (HS.emit W ({ role := h.role, ctl := h.ctl, log := [.msg false m], transcript := [m], ms := h.ms } : HS P) k.tSH true) false := by
+          have := Mid.emit W hmid k.tSH ne.lt_SH ne.ne_SH_Fin (fun x hx => by rw [cw_SH ne _ _ hx]; simp [hic])
+          simpa [ne.ne_SH_SHD] using this
+        generalize hg : HS.emit W ({ role := h.role, ctl := h.ctl, log := [.msg false m], transcript := [m], ms := h.ms } : HS P) k.tSH true = h2 at m1 ⊢
+        have r2 : h2.role = .server := by rw [← hg]; simp [HS.emit, hr]
+        have hic2 : h2.role.isClient = false := by rw [r2]; rfl
+        have t := Mid.sendFinished m1 ne (W.master .server h2.log) (by rw [hic2]; rfl)
+        simp only [Shape]
+        refine ⟨by simp [HS.sendFinished, r2], h2.log, W.master .server h2.log, m1.pre.2.2, ?_⟩
+        rw [hic2] at t
+        exact Tail.ctl t _
+      · exact serverFlight_shape W ft ne hmid hr
+    · exact shape_fail h _
+  · -- sCert
+    rename_i hctl
+    simp only [Shape, hctl] at hs
+    obtain ⟨hr, hm⟩ := hs
+    have hic : h.role.isClient = false := by rw [hr]; rfl
+    split
+    · rename_i hcond
+      have hty : mtype m = k.tCert := hcond.1
+      simp only [ft.sReadsHashed, Shape]
+      have := Mid.take hm m (by rw [hty]; exact ne.ne_Cert_Fin) (by rw [cw_Cert ne _ _ hty, hic]; rfl)
+      refine ⟨by simp [HS.take, hr], ?_⟩
+      simpa using Mid.ctl this _
+    · exact shape_fail h _
+  · -- sCKX
+    rename_i requested hctl
+    simp only [Shape, hctl] at hs
+    obtain ⟨hr, hm⟩ := hs
+    have hic : h.role.isClient = false := by rw [hr]; rfl
+    split
+    · rename_i hcond
+      have hty : mtype m = k.tCKX := hcond.1
+      simp only [ft.sReadsHashed]
+      have := Mid.take hm m (by rw [hty]; exact ne.ne_CKX_Fin) (by rw [cw_CKX ne _ _ hty, hic]; rfl)
+      have hm2 : Mid k (HS.take h m true) true := by simpa using this
+      split
+      · simp only [Shape]
+        exact ⟨by simp [HS.take, hr], ⟨hm2.canon, hm2.pre, hm2.trans⟩, _, rfl⟩
+      · simp only [Shape]
+        exact ⟨by simp [HS.take, hr], ⟨hm2.canon, hm2.pre, hm2.trans⟩, _, rfl⟩
+    · exact shape_fail h _
+  · -- sCV
+    rename_i hctl
+    simp only [Shape, hctl] at hs
+    obtain ⟨hr, hm, s, hms⟩ := hs
+    have hic : h.role.isClient = false := by rw [hr]; rfl
+    split
+    · rename_i hcond
+      have hty : mtype m = k.tCV := hcond.1
+      simp only [ft.sCVReadNil, ft.sCVAddedAfter, Bool.not_true, if_true, Shape]
+      have := Mid.take hm m (by rw [hty]; exact ne.ne_CV_Fin) (by rw [cw_CV ne _ _ hty, hic]; rfl)
+      have hm2 : Mid k (HS.take h m true) true := by simpa using this
+      refine ⟨by simp [HS.take, hr], ⟨?_, ?_, ?_⟩, s, by simp [HS.take, hms]⟩
+      · simpa [HS.take] using hm2.canon
+      · simpa [HS.take] using hm2.pre
+      · simpa [HS.take] using hm2.trans
+    · exact shape_fail h _
+  · -- sFin
+    rename_i resumed hctl
+    split
+    · exact shape_fail h _
+    · rename_i ms hms
+      split
+      · rename_i hty
+        simp only [ft.sFinReadNil, ft.sFinAddedAfter, ft.sWritesHashed]
+        split
+        · exact shape_fail h _
+        · rename_i h1 hrecv
+          simp only [Shape, hctl] at hs
+          cases resumed with
+          | false =>
+            obtain ⟨hr, A, s, hA, ht⟩ := hs
+            have hss : ms = s := by have := ht.ms; rw [hms] at this; exact Option.some.inj this
+            subst hss
+            have hic : h.role.isClient = false := by rw [hr]; rfl
+            simp only [Bool.false_eq_true, if_false, Shape]
+            exact done_peer_first ft ne hw hty ht (by rw [hA, hic]; rfl) hrecv _
+          | true =>
+            obtain ⟨hr, A, s, hA, ht⟩ := hs
+            have hss : ms = s := by have := ht.ms; rw [hms] at this; exact Option.some.inj this
+            subst hss
+            have hic : h.role.isClient = false := by rw [hr]; rfl
+            simp only [if_true, Shape]
+            exact done_own_first ft ne hw hty (by rw [hic]; exact ht) (by rw [hA, hic]; rfl) hrecv _
+      · exact shape_fail h _
+  · exact shape_fail h _
+  · exact shape_fail h _
+  · exact hs
+  · exact hs
+
+/-- every reachable handshake state satisfies the invariant -/
+theorem reach_shape (hk : k.ok = true) (hf : f.sound = true) {h : HS P} (hr : Reach k f W h) : Shape k h := by
+  induction hr with
+  | init r => exact shape_init W (codesNe hk) r
+  | msg m _ hw ih => exact shape_onMsg W (flagsTrue hf) (codesNe hk) ih hw
+  | ccs _ ih => exact shape_onCCS (codesNe hk) ih
+  | fail a _ _ => exact shape_fail _ a
+
+/-! ### roles never change -/
+
+theorem emit_role (h : HS P) (t : Nat) (b : Bool) : (HS.emit W h t b).role = h.role := rfl
+theorem sendFinished_role (h : HS P) (s : P.Secret) (b : Bool) : (HS.sendFinished k h s b).role = h.role := rfl
+
+theorem recvFinished_role {h h1 : HS P} {s : P.Secret} {m : Msg} {a b : Bool}
+    (hr : HS.recvFinished f h s m a b = some h1) : h1.role = h.role := by
+  unfold HS.recvFinished at hr
+  by_cases hc : finMatches f.finFullCompare (mbody m)
+      (P.prf s (!h.role.isClient) (hashT P (if a = true then h.transcript else h.transcript ++ [m]))) = true
+  · simp only [hc, if_true, Option.some.injEq] at hr; rw [← hr]
+  · simp [hc] at hr
+
+theorem clientFlight_role (h : HS P) (r : Bool) : (HS.clientFlight k f W h r).role = h.role := by
+  unfold HS.clientFlight
+  simp only [sendFinished_role]
+  split <;> split <;> simp [emit_role]
+
+theorem serverFlight_role (h : HS P) : (HS.serverFlight k f W h).role = h.role := by
+  unfold HS.serverFlight
+  simp only []
+  split <;> split <;> simp [emit_role]
+
+theorem onCCS_role (h : HS P) : (HS.onCCS k h).role = h.role := by
+  unfold HS.onCCS; split <;> rfl
+
+theorem onMsg_role (h : HS P) (m : Msg) : (HS.onMsg k f W h m).role = h.role := by
+  unfold HS.onMsg
+  simp only []
+  split
+  all_goals (repeat' split)
+  all_goals first
+    | rfl
+    | exact recvFinished_role (by assumption)
+    | (simp only [sendFinished_role]; exact recvFinished_role (by assumption))
+    | (simp [HS.fail, HS.take, clientFlight_role, serverFlight_role, sendFinished_role, emit_role]; done)
+
+/-- states reachable by the endpoint of role `r` -/
+inductive ReachR (k : Codes) (f : TFlags) (W : World P) (r : Role) : HS P → Prop where
+  | init : ReachR k f W r (HS.init k W r)
+  | msg {h : HS P} (m : Msg) : ReachR k f W r h → WellFramed m → ReachR k f W r (HS.onMsg k f W h m)
+  | ccs {h : HS P} : ReachR k f W r h → ReachR k f W r (HS.onCCS k h)
+  | fail {h : HS P} (a : Nat) : ReachR k f W r h → ReachR k f W r (HS.fail h a)
+
+theorem ReachR.reach {r : Role} {h : HS P} (hr : ReachR k f W r h) : Reach k f W h := by
+  induction hr with
+  | init => exact .init r
+  | msg m _ hw ih => exact .msg m ih hw
+  | ccs _ ih => exact .ccs ih
+  | fail a _ ih => exact .fail a ih
+
+theorem ReachR.role {r : Role} {h : HS P} (hr : ReachR k f W r h) : h.role = r := by
+  induction hr with
+  | init => cases r <;> rfl
+  | msg m _ _ ih => rw [onMsg_role]; exact ih
+  | ccs _ ih => rw [onCCS_role]; exact ih
+  | fail a _ ih => exact ih
+
 end inv
 
 end Gotlcp.Lemmas.Transcript
